@@ -27,6 +27,14 @@ WordAl(w) == [rows |-> [r \in 1..2 |-> [n |-> NameNo(r), s |-> w[r]]]]
 
 Hop(f, st, ol, nb, via, auto) == [fmt |-> f, strict |-> st, oneline |-> ol, noblock |-> nb, via |-> via, auto |-> auto]
 Plain(f) == Hop(f, FALSE, FALSE, FALSE, "mem", FALSE)
+\* names that only start or end with a word some lexer knows (any case): ordinary names, the channel is the identity on them
+KeyWords == NexusKeywords \cup {ClustalWord, ClustalWord \o <<119>>, <<115, 116, 111, 99, 107, 104, 111, 108, 109>>, <<109, 117, 115, 99, 108, 101>>}
+AffixAl(k) == [rows |-> <<[n |-> k \o <<120, 49>>, s |-> RowOf(NtCyc, 1, 5)], [n |-> <<120>> \o k, s |-> RowOf(NtCyc, 2, 5)],
+                         [n |-> UpS(k) \o <<87, 50>>, s |-> RowOf(NtCyc, 3, 5)], [n |-> <<Up(k[1])>> \o Tail(k) \o <<95>>, s |-> RowOf(NtCyc, 4, 5)]>>]
+AffixCases == {x \in {[als |-> <<AffixAl(k)>>, chain |-> <<Hop(f, FALSE, FALSE, FALSE, "mem", a)>>] : k \in KeyWords, f \in FormatNames, a \in Bools} :
+                 /\ (x.chain[1].fmt = "stockholm" => ~x.chain[1].auto)
+                 /\ Representable(x.chain[1].fmt, FALSE, x.als[1])}
+
 PhylipHops(vias, autos) == {Hop("phylip", st, ol, nb, v, a) : st \in Bools, ol \in Bools, nb \in Bools, v \in vias, a \in autos}
 AllHops(vias) == {Hop(f, FALSE, FALSE, FALSE, v, a) : f \in {"fasta", "nexus", "clustal"}, v \in vias, a \in Bools}
                  \cup {Hop("stockholm", FALSE, FALSE, FALSE, v, FALSE) : v \in vias}
@@ -46,6 +54,7 @@ Cases ==
   \cup {[als |-> [k \in 1..m |-> Al(m - k + 1, 7, IF k = 2 THEN AaCyc ELSE NtCyc, FALSE)], chain |-> <<h>>] : m \in 2..3, h \in PhylipHops({"mem"}, Bools)}
   \cup {[als |-> <<[rows |-> <<[n |-> <<116, 101, 110, 99, 104, 97, 114, 115, 95, 49>>, s |-> RowOf(NtCyc, 1, len)], [n |-> <<98>>, s |-> RowOf(NtCyc, 2, len)]>>]>>,
           chain |-> <<h>>] : len \in {9, 60, 61}, h \in PhylipHops({"mem", "file"}, Bools)}
+  \cup AffixCases
   \cup (IF Scope = "full" THEN {[als |-> <<Al(1, len, NtCyc, FALSE)>>, chain |-> ch] : len \in {1, 60, 121}, ch \in Chains3}
                                 \cup {[als |-> <<Al(3, len, AaCyc, FALSE)>>, chain |-> ch] : len \in Lens, ch \in Chains1}
         ELSE {})
